@@ -374,17 +374,15 @@ def run(chk, tier):
     # the header length of a primitive element is PrimitiveValue::calculate_byte_len while the bytes come from the encoder: a value whose
     # computed length differs from what is written cannot be read back (the reader cuts the value and misparses what follows) --
     # the per-variant length formulas and the date/time widths of C04 are therefore part of this property too
-    from . import c04, report
-    sub = report.Check("C04", tier)
-    c04.run(sub, tier)
-    chk.rule("value-length-formulas", "PrimitiveValue::calculate_byte_len per variant and the DA/TM/DT width helpers agree with the bytes the encoder writes (instances of C04 unit-width / date-time-width)")
-    n_bl = 0
-    for inst in sub.instances:
-        if inst["rule"] in ("unit-width", "date-time-width"):
-            n_bl += 1
-            if inst["status"] == "ok":
-                chk.ok("value-length-formulas", inst["fn"], f"{inst['rule']}:{inst['instance']}", inst.get("detail"))
-            else:
-                chk.bad("value-length-formulas", inst["fn"], f"{inst['rule']}:{inst['instance']}", inst.get("expected"), inst.get("found"), loc=inst.get("loc"))
-    chk.floor("value-length-formulas", "length formula instances", n_bl, 20)
+    # C01 is the umbrella of the codec properties: a data set comes back equal only if every header is laid out as its decoder reads it
+    # (C03), every declared length is the number of bytes written (C04), the reader's position and the delimiters / recorded lengths it
+    # relies on are right (C07, C02). Their clauses about the writer, the encoders/decoders and the *eager* reader are imported here;
+    # clauses about the lazy reader and the collector (C06) are not: C01 does not go through them.
+    shared.import_rules(chk, tier, "C04", {"padding-byte", "bytes-written", "unit-width", "even-round", "date-time-width", "writer-text-identity", "fragment-lengths-explicit"},
+                        "declared lengths == bytes written", 130)
+    shared.import_rules(chk, tier, "C03", {"vr-header-form", "header-layout", "header-bytes-read", "u16-length-guard", "vr-code", "unknown-vr-un"},
+                        "encoder and decoder agree on every header form", 280)
+    shared.import_rules(chk, tier, "C07", {"sanitize-length", "length-provenance", "position-accounting"}, "position of the eager reader", 36,
+                        only=lambda i: i["rule"] == "position-accounting" or i["fn"] == "eager")
+    shared.import_rules(chk, tier, "C02", {"sq-length-strategy", "len-plumbing", "delimitation"}, "recorded lengths and delimiters", 55)
     chk.undecided.append("equality of values after write+read for arbitrary data sets; 'writing never fails' for well-formed data")
